@@ -35,6 +35,7 @@ class Out(object):
         self.nontrivial = 0
         self.samples = []
         self.notes = collections.Counter()
+        self.applied = collections.Counter()  # letter index -> number of successful applications (vacuity audit)
 
     def violation(self, clause, sig, detail, hist=None, extra=None):
         key = "%s|%s" % (clause, sig)
@@ -58,6 +59,7 @@ class Out(object):
         self.filters.update(other.filters)
         self.outcomes.update(other.outcomes)
         self.notes.update(other.notes)
+        self.applied.update(getattr(other, "applied", {}))
         self.transitions += other.transitions
         self.evaluations += other.evaluations
         self.conform += other.conform
@@ -149,6 +151,7 @@ def _one(spec, hist, expand, out, succ):
         st.hist = h2
         out.transitions += 1
         out.conform += 1
+        out.applied[i] += 1
         spec.check_transition(pre, op, st, out)
         d = digest(spec.canon(st))
         if d not in succ:
